@@ -264,6 +264,15 @@ def gen_op(spec, rng, codec, fs, s, m, cls, oid, client):
                 script.append({"code": rng.choice(codes)})
         if op["kind"] == "sstream":
             script = [{"items": [{}]}]           # (stream-start faults: api-core's sync/asyncio retry semantics differ)
+        elif op["kind"] == "unary" and rng.random() < 0.2:
+            # the call finally FAILS with a status that is not retried: whatever the client remembered about this call
+            # must not reach the next one (e.g. the same request object, corrected in place and re-submitted)
+            from .. import simhttp
+            non = [c for c in (simhttp.ROUND_TRIP if client == "rest" else engine.ALL_CODES) if c not in (pol["codes"] if pol else [])]
+            if non:
+                script.append({"code": rng.choice(non)})
+            else:
+                script.append({"reply": {}})
         else:
             script.append({"reply": {}})
         op["server"] = script
